@@ -5,6 +5,7 @@ import (
 	"flag"
 	"fmt"
 	"sort"
+	"strconv"
 	"strings"
 	"time"
 
@@ -263,6 +264,8 @@ type qgen struct {
 	lastCls  []string
 	lastOuts []string
 	lastTail string
+	// what the generator meant, independent of what the parser's hooks made of it
+	intent string
 }
 
 var qNodes = []*node.Node{}
@@ -453,6 +456,27 @@ func (q *qgen) clauseFrom(t *triple.Triple, vm map[string]string, level int) str
 	case x < 9:
 		ta, _ := p.TimeAnchor()
 		fmt.Fprintf(&b, `"%s"@[%s]`, p.ID(), name("t:"+instantNanos(*ta)))
+	case len(timeBindings(vm)) > 0 && r.chance(2, 3):
+		// bounds taken from time bindings of earlier clauses: "id"@[?lo,?hi]
+		ta, _ := p.TimeAnchor()
+		tbs := timeBindings(vm)
+		pick := func(below bool) string {
+			var c []string
+			for _, tb := range tbs {
+				if (below && tb.nanos <= ta.UnixNano()) || (!below && tb.nanos >= ta.UnixNano()) || r.chance(1, 5) {
+					c = append(c, tb.name)
+				}
+			}
+			if len(c) == 0 || r.chance(1, 4) {
+				return ""
+			}
+			return c[r.intn(len(c))]
+		}
+		lo, hi := pick(true), pick(false)
+		if lo == "" && hi == "" {
+			lo = tbs[r.intn(len(tbs))].name
+		}
+		fmt.Fprintf(&b, `"%s"@[%s,%s]`, p.ID(), lo, hi)
 	default:
 		ta, _ := p.TimeAnchor()
 		lo, hi := "", ""
@@ -492,6 +516,26 @@ func (q *qgen) clauseFrom(t *triple.Triple, vm map[string]string, level int) str
 		}
 	}
 	return b.String()
+}
+
+type timeBinding struct {
+	name  string
+	nanos int64
+}
+
+// timeBindings: the bindings of the query so far that hold a time anchor ("t:<nanos>" keys of vm).
+func timeBindings(vm map[string]string) []timeBinding {
+	var out []timeBinding
+	for k, v := range vm {
+		if strings.HasPrefix(k, "t:") {
+			n, err := strconv.ParseInt(k[2:], 10, 64)
+			if err == nil {
+				out = append(out, timeBinding{v, n})
+			}
+		}
+	}
+	sort.Slice(out, func(i, j int) bool { return out[i].name < out[j].name })
+	return out
 }
 
 func bindingsIn(s string) []string {
@@ -550,6 +594,7 @@ func (q *qgen) queryText(graphs []string) string {
 	}
 	text := fmt.Sprintf("select %s from %s where { %s }", strings.Join(proj, ", "), strings.Join(graphs, ", "), where)
 	q.lastProj, q.lastCls, q.lastTail = proj, cls, ""
+	q.intent = ""
 	outs := func() []string {
 		var o []string
 		for _, p := range proj {
@@ -590,6 +635,11 @@ func (q *qgen) queryText(graphs []string) string {
 			}
 		}
 		text = fmt.Sprintf("select %s from %s where { %s } group by %s", strings.Join(sel, ", "), strings.Join(graphs, ", "), where, strings.Join(keys, ", "))
+		var xg []string
+		for _, k := range keys {
+			xg = append(xg, hx(k))
+		}
+		q.intent += " xgb=" + strings.Join(xg, ",")
 		outs = nil
 		for _, p := range sel {
 			f := strings.Fields(p)
@@ -614,6 +664,21 @@ func (q *qgen) queryText(graphs []string) string {
 			ks = append(ks, k+d)
 		}
 		text += " order by " + strings.Join(ks, ", ")
+		var xs []string
+		seen := map[string]bool{}
+		for _, kd := range ks {
+			f := strings.Fields(kd)
+			if seen[f[0]] {
+				continue
+			}
+			seen[f[0]] = true
+			desc := "0"
+			if len(f) > 1 && f[1] == "desc" {
+				desc = "1"
+			}
+			xs = append(xs, hx(f[0])+":"+desc)
+		}
+		q.intent += " xob=" + strings.Join(xs, ",")
 	}
 	if q.mode == "having" {
 		text += " having " + q.havingExpr(outs, 0)
@@ -633,7 +698,9 @@ func (q *qgen) queryText(graphs []string) string {
 		return text + ";"
 	}
 	if q.mode == "limit" || (q.mode != "optional" && r.chance(1, 10)) {
-		text += fmt.Sprintf(` limit "%d"^^type:int64`, r.intn(4))
+		n := r.intn(4)
+		text += fmt.Sprintf(` limit "%d"^^type:int64`, n)
+		q.intent += fmt.Sprintf(" xlim=%d", n)
 	}
 	return text + ";"
 }
@@ -760,7 +827,7 @@ func cmdQuery(args []string) error {
 			if ov {
 				o = "1"
 			}
-			line := fmt.Sprintf("Q overlap=%s text=%s %s", o, hx(text), stEnc)
+			line := fmt.Sprintf("Q overlap=%s text=%s %s%s", o, hx(text), stEnc, q.intent)
 			ans := res.cls
 			if res.cls == "ok" {
 				ans = res.text
